@@ -93,7 +93,73 @@ def _check_rotation(ctx, case):
                 return ctx.fail(("rotate", "bystander-changed"), case, {"node": idx})
 
 
+def check_regroup(ctx, case):
+    """The associative regrouping rule is a rotation: applied at every node where it reports applicable (in place, on a
+    tree parsed from text, and on the copy clone_from_root gives an agent), the in-order sequence of node objects of the
+    whole tree is unchanged, all links are mutually consistent, the slot of the grandparent that held the parent now holds
+    the node, and the change's result is the rotated node."""
+    from . import audit as A
+    from . import engine as EN
+
+    try:
+        return _check_regroup(ctx, case, A, EN)
+    except Exception as ex:
+        if not EN.raised_in_code_under_test(ex):
+            raise
+        return ctx.fail(("regroup-raised",) + EN.exc_site(ex), case, {"error": repr(ex)[:200]})
+
+
+def _check_regroup(ctx, case, A, EN):
+    from mathy_core.rules import AssociativeSwapRule
+
+    probe = EN.parse(case["text"])
+    if probe is None:
+        return
+    count = len(A.inorder(probe))
+    rule = AssociativeSwapRule()
+    for k in range(count):
+        for via_clone in (False, True):
+            root = EN.parse(case["text"])
+            nodes = A.inorder(root)
+            n = nodes[k]
+            if not rule.can_apply_to(n):
+                break
+            if via_clone:
+                n = n.clone_from_root()
+                root = EN._root(n)
+                nodes = A.inorder(root)
+            parent, grand = n.parent, n.parent.parent
+            gp_side = None if grand is None else ("left" if grand.left is parent else "right")
+            before = [id(x) for x in nodes]
+            res = rule.apply_to(n).result
+            ctx.count("rule-rotations")
+            ctx.nontriv(("regroup", case["text"], k, via_clone))
+            det = {"tree": case["text"], "node_index": k, "via_clone_from_root": via_clone}
+            if res is not n:
+                return ctx.fail(("regroup", "result-is-not-the-rotated-node"), case, det)
+            new_root = n if grand is None else root
+            top = n
+            hops = 0
+            while top.parent is not None and hops < 10000:
+                top = top.parent
+                hops += 1
+            if top is not new_root:
+                return ctx.fail(("regroup", "root"), case, det)
+            aud = A.audit(new_root)
+            if aud is not None:
+                return ctx.fail(("regroup", "links"), case, {**det, "audit": str(aud)[:200]})
+            if [id(x) for x in A.inorder(new_root)] != before:
+                return ctx.fail(("regroup", "inorder"), case, det)
+            if n.parent is not grand or (grand is not None and getattr(grand, gp_side) is not n):
+                return ctx.fail(("regroup", "grandparent"), case, det)
+            if parent.parent is not n:
+                return ctx.fail(("regroup", "parent-below"), case, det)
+    ctx.sample({"text": case["text"], "kind": "regroup"}, cap=3)
+
+
 def replay(ctx, case):
+    if "text" in case:
+        return check_regroup(ctx, case)
     check_rotation(ctx, case)
 
 
@@ -119,3 +185,15 @@ def run(ctx):
         st.lists(st.integers(0, 59), min_size=1, max_size=6),
     )
     hyp_run(ctx, "random-rotation-sequences", strat, check_rotation, ctx.n(1500, 8000))
+    # the associative regrouping rule is a rotation (anchored in rules/associative_swap.py): every applicable node of the
+    # regrouping templates in every context, of small exhaustive expressions, and of drawn trees
+    from . import gen as G
+
+    texts = G.sweep_texts(["AG", "CA", "DF"]) + [t for t in G.small_expressions(3) if t.count("+") >= 2 or t.count("*") >= 2]
+    step = 4 if ctx.tier == "quick" else 1
+    for i, t in enumerate(texts):
+        if i % step != ctx.seed % step or (i // step) % ctx.nshards != ctx.shard:
+            continue
+        ctx.count("evaluations")
+        check_regroup(ctx, {"text": t})
+    hyp_run(ctx, "regroup", G.tree_text(14).map(lambda t: {"text": t}), check_regroup, ctx.n(800, 6000))
